@@ -55,7 +55,7 @@ def factory(sc):
     if sc["script"] == "bigchain_hs":
         cfg["chain"] = "bigchain"
     kw = {"max_steps": 500, "horizon": 60.0,
-          "deviations": tuple(sc.get("dev", ("drop", "dup", "delay", "late")))}
+          "deviations": tuple(sc.get("dev", ("drop", "dup", "delay", "late", "hold")))}
     return cfg, SCRIPTS[sc["script"]], [AckMonitor()], kw, goal
 
 
